@@ -1,9 +1,108 @@
 import ALV.Common.Json
+import ALV.Model.C20
+import ALV.Spec.C20
 namespace ALV.Driver.C20
-open ALV ALV.J
+open ALV ALV.J ALV.C20
 
-/-- stub: the C20 slice is not built yet -/
-def handle (entry : String) (_j : Json) : Except String Json :=
-  throw s!"C20: unknown entry {entry}"
+def optRat (j : Json) (k : String) : Except String (Option Rat) :=
+  match optField j k with
+  | none => pure none
+  | some v => do let r ← getRat v; pure (some r)
+
+def exceptJson (r : Except String (List Rat)) : Json :=
+  match r with
+  | .ok l => rats l
+  | .error e => Json.mkObj [("err", Json.str e)]
+
+/-- is `d` an integer multiple of `step` (step ≠ 0) -/
+def isMultiple (step d : Rat) : Bool := (d / step).den == 1
+
+def handle (entry : String) (j : Json) : Except String Json := do
+  match entry with
+  | "maverage" =>
+    let size ← getNat (← field j "size")
+    if size = 0 then throw "size must be positive"
+    let zero ← getRat (fieldD j "zero" (Json.int 0))
+    let xs ← getList getRat (← field j "xs")
+    pure <| Json.mkObj [
+      ("deque", rats (R.maverageDeque size zero xs)),
+      ("recursive", rats (R.maverageRecursive size zero xs)),
+      ("fir", rats (R.maverageFir size zero xs)),
+      ("spec", rats (R.mavgSpec size zero xs)),
+      ("closed", rats (R.mavgClosed size zero xs))]
+  | "accumulate" =>
+    let zero ← getRat (fieldD j "zero" (Json.int 0))
+    let xs ← getList getRat (← field j "xs")
+    pure <| Json.mkObj [
+      ("func", rats (R.accumulateFunc xs)),
+      ("it", rats (R.accumulateIt xs)),
+      ("z", rats (R.accumulateZ zero xs)),
+      ("spec", rats (R.accSpec xs))]
+  | "amdf" =>
+    let lag ← getNat (← field j "lag")
+    let size ← getNat (← field j "size")
+    if size = 0 then throw "size must be positive"
+    let zero ← getRat (fieldD j "zero" (Json.int 0))
+    let xs ← getList getRat (← field j "xs")
+    pure <| Json.mkObj [
+      ("model", rats (R.amdf lag size zero xs)),
+      ("spec", rats (R.amdfSpec lag size zero xs))]
+  | "envelope" =>
+    let b ← getList getRat (← field j "b")
+    let a ← getList getRat (← field j "a")
+    let xs ← getList getRat (← field j "xs")
+    pure <| Json.mkObj [
+      ("abs", rats (R.envelopeAbs b a xs)),
+      ("squared", rats (R.envelopeSquared b a xs))]
+  | "clip" =>
+    let low ← optRat j "low"
+    let high ← optRat j "high"
+    let xs ← getList getRat (← field j "xs")
+    let m := R.clip low high xs
+    let twice := match m with
+      | .ok ys => R.clip low high ys
+      | .error e => .error e
+    let bounded : Bool := match m with
+      | .ok ys => ys.all fun y =>
+          (match low with | some lo => !(decide (y < lo)) | none => true) &&
+          (match high with | some hi => !(decide (hi < y)) | none => true)
+      | .error _ => true
+    pure <| Json.mkObj [
+      ("model", exceptJson m),
+      ("spec", exceptJson (R.clipSpec low high xs)),
+      ("twice", exceptJson twice),
+      ("bounded", Json.bool bounded)]
+  | "zcross" =>
+    let h ← getRat (fieldD j "hysteresis" (Json.int 0))
+    let fs ← getRat (fieldD j "first_sign" (Json.int 0))
+    let xs ← getList getRat (← field j "xs")
+    pure <| Json.mkObj [
+      ("model", nats (R.zcross h fs xs)),
+      ("spec", nats (R.zcrossSpec h fs xs))]
+  | "unwrap" =>
+    let md ← getRat (← field j "max_delta")
+    let step ← getRat (← field j "step")
+    if step = 0 then throw "step must be non-zero"
+    let xs ← getList getRat (← field j "xs")
+    let m := R.unwrap md step xs
+    let multiple := (List.zipWith (fun y x => isMultiple step (y - x)) m xs).all id
+    let bound := if md < step / 2 then step / 2 else md
+    let adj := (List.zipWith (fun y0 y1 => !(decide (bound < absG (y1 - y0)))) m (m.drop 1)).all id
+    pure <| Json.mkObj [
+      ("model", rats m),
+      ("spec", rats (R.unwrapSpec md step xs)),
+      ("multiple", Json.bool multiple),
+      ("adjacent", Json.bool adj)]
+  | "coeffs" =>
+    -- the coefficient lists the filter-built strategies are modelled with (structural tie)
+    let size ← getNat (← field j "size")
+    let lag ← getNat (← field j "lag")
+    if size = 0 then throw "size must be positive"
+    pure <| Json.mkObj [
+      ("recursive_b", rats (recursiveNum size : List Rat)), ("recursive_a", rats [-1]),
+      ("fir_b", rats (List.replicate size (sizeInv size) : List Rat)), ("fir_a", rats []),
+      ("lag_b", rats (lagNum lag : List Rat)), ("lag_a", rats []),
+      ("acc_b", rats [1]), ("acc_a", rats [-1])]
+  | _ => throw s!"C20: unknown entry {entry}"
 
 end ALV.Driver.C20
